@@ -55,6 +55,7 @@ type Monitors struct {
 	lockOwner    string // incarnation owning /test/manager ("" = none)
 	lockSess     int64
 	lockChanges  int
+	lockSince    time.Duration
 	master       string
 	active       []string
 	activeSet    bool
@@ -225,6 +226,7 @@ func (m *Monitors) onZKEvent(e *ZKEvent) {
 			case "create":
 				m.lockOwner, m.lockSess = e.Inc, e.Sess
 				m.lockChanges++
+				m.lockSince = m.s.now()
 				for _, it := range m.iters {
 					if it.open && it.inc == e.Inc {
 						it.ownedLock = true
@@ -309,6 +311,10 @@ func (m *Monitors) onIterEnter(d *Daemon, state string) {
 	it.ownedLock = m.lockOwner == d.inc
 	m.iters[d.inc] = it
 	m.allIter = append(m.allIter, it)
+	if ca := m.s.spec.CrashAt; ca != nil && ca.ArmAfterMs > 0 && state == "Manager" && m.s.crashInc == "" && !m.s.crashDone && m.s.now() >= ms(ca.ArmAfterMs) && m.lockOwner == d.inc {
+		m.s.crashInc = d.inc
+		m.s.crashCount = 0
+	}
 	for _, o := range m.oracles {
 		o.onIterEnter(it)
 	}
